@@ -234,6 +234,7 @@ pub fn describe(sc: &Scenario) -> serde_json::Value {
     })
 }
 
+#[derive(Clone, Copy)]
 pub struct FamilySpec {
     pub property: &'static str,
     pub cmd: &'static str,
@@ -249,8 +250,9 @@ pub struct FamilySpec {
 /// Execute one scenario, apply the monitors, record results. Returns the analysis counters.
 pub fn execute(st: &mut Stats, spec: &FamilySpec, sc: &Scenario, meta: &Meta, origin: &str) -> monitors::Counters {
     st.evaluations += 1;
-    st.engine("SIM", 1);
-    let out = wl::run_general(sc);
+    let thr = !meta.sim;
+    st.engine(if thr { "THR" } else { "SIM" }, 1);
+    let out = if thr { wl::run_general_thr(sc, 30) } else { wl::run_general(sc) };
     let an = monitors::analyse(&out.log, spec.fams, meta);
     for (k, v) in &an.counters.c {
         st.count(k, *v);
@@ -262,6 +264,13 @@ pub fn execute(st: &mut Stats, spec: &FamilySpec, sc: &Scenario, meta: &Meta, or
     };
     match out.end {
         "finished" => {}
+        "stalled" if thr => {
+            // real time: a wall-clock timeout is never a verdict
+            st.count("thr_timeouts", 1);
+            if st.inconclusive.len() < 5 {
+                st.inconclusive.push(format!("THR run {} hit the 30 s wall-clock limit", sc.seed));
+            }
+        }
         "stalled" => {
             st.count("stalled_runs", 1);
             if spec.stall_is_violation {
@@ -296,12 +305,37 @@ pub fn run_family(p: &Params, spec: &FamilySpec) -> (Stats, &'static str) {
     std::panic::set_hook(Box::new(|_| {}));
     sim::install_observer();
     let mut st = Stats::new();
-    let base = p.shard_seed(spec.property);
-    let n = p.share(if p.tier_thorough { spec.runs_thorough } else { spec.runs_quick });
+    let thr = p.get("engine") == Some("thr");
+    let base = mix(p.shard_seed(spec.property), u64::from(thr));
+    let n = if thr { p.share(if p.tier_thorough { 100_000 } else { 1600 }) } else { p.share(if p.tier_thorough { spec.runs_thorough } else { spec.runs_quick }) };
+    // THR: only the families whose rules are sound without a global execution order
+    let thr_fams: Vec<Fam> = spec.fams.iter().copied().filter(|f| matches!(f, Fam::Bytes | Fam::Credit | Fam::Dgram | Fam::Panic)).collect();
+    let thr_spec = FamilySpec { fams: Box::leak(thr_fams.into_boxed_slice()), ..*spec };
+    let spec = if thr { &thr_spec } else { spec };
     for i in 0..n {
         let seed = mix(base, i);
-        let sc = gen_scenario(seed, spec.profile);
-        let meta = Meta { abnormal_end: false, dgram_cap: [sc.cfg[0].dgram_buf, sc.cfg[1].dgram_buf], stream_is_bridge: false, sim: true, ..Meta::default() };
+        let mut sc = gen_scenario(seed, spec.profile);
+        if thr {
+            // keep real-time runs short: no long sleeps
+            for s in sc.streams.iter_mut() {
+                s.open_delay = s.open_delay.min(3);
+                for side in s.sides.iter_mut() {
+                    side.read_delay = side.read_delay.min(3);
+                    for p in side.read_pauses.iter_mut() {
+                        p.1 = p.1.min(2);
+                    }
+                    for w in side.writes.iter_mut() {
+                        if let WOp::Sleep(ms) = w {
+                            *ms = (*ms).min(2);
+                        }
+                    }
+                }
+            }
+            for d in sc.dgrams.iter_mut() {
+                d.pause_before = d.pause_before.min(2);
+            }
+        }
+        let meta = Meta { abnormal_end: false, dgram_cap: [sc.cfg[0].dgram_buf, sc.cfg[1].dgram_buf], stream_is_bridge: false, sim: !thr, ..Meta::default() };
         let c = execute(&mut st, spec, &sc, &meta, "random");
         record_coverage(&mut st, &sc, &c, spec, seed);
         if st.too_many_violations() {
